@@ -34,7 +34,7 @@ def cases(tier, seed):
     out = []
     n = 20 if tier == "quick" else 480
     for k in range(n):
-        ns = int(rng.choice([1, 2]))
+        ns = int(rng.choice([1, 2, 3]))
         surfs = []
         for s in range(ns):
             spec = M.random_spec(rng, half="full", nx=int(rng.integers(2, 4)), ny=int(rng.integers(2, 8)), odd_full=False)
@@ -80,7 +80,7 @@ def cases(tier, seed):
         out.append(c)
     n = 16 if tier == "quick" else 360
     for k in range(n):
-        ns = int(rng.choice([1, 2]))
+        ns = int(rng.choice([1, 2, 3]))
         surfs = []
         for s in range(ns):
             spec = M.random_spec(rng, half="left", nx=int(rng.integers(2, 4)), ny=int(rng.integers(2, 7)))
